@@ -5,10 +5,10 @@ import json, os, sys
 
 HERE = os.path.dirname(os.path.dirname(os.path.abspath(__file__)))
 
-TECH = "bounded symbolic execution of the go/ssa form of the real functions (own SSA->SMT encoder), assertions decided by z3 4.8.12 over QF_BV for all inputs of the stated lengths; counterexamples replayed natively"
+TECH = "bounded symbolic execution of the go/ssa form of the real functions (own SSA->SMT encoder), assertions decided by z3 5.1.0 (z3-new) over QF_BV for all inputs of the stated lengths; counterexamples replayed natively"
 TRUST = ("x/tools go/ssa v0.29.0 as the semantics executed; the engine's interpreter and term simplifier; the listed intrinsics "
          "(regexp via regexp/syntax program simulation, UTF-8 codec, bytes/strings/fmt models), each cross-checked against the "
-         "native build on every run; the byte-level reference written in the harness; z3 4.8.12. Nothing is claimed outside the stated bounds.")
+         "native build on every run; the byte-level reference written in the harness; z3 5.1.0 (z3-new on PATH). Nothing is claimed outside the stated bounds.")
 
 claimed = {}
 na = {}
